@@ -302,6 +302,7 @@ Fixpoint eval (fuel : nat) (rho : env) (e : expr) {struct fuel} : res value :=
           do k <- as_data a;
           match call_data c k with
           | CROne v => Ok (D v)
+          | CRNotKeyed => Unspec      (* not a set of (@, x) pairs: outside the statement *)
           | _ => Err
           end
       | D _ => Err
@@ -377,7 +378,8 @@ Fixpoint eval (fuel : nat) (rho : env) (e : expr) {struct fuel} : res value :=
             match call_data c k with
             | CROne v => Ok (D v)
             | CRNone => ev rho d
-            | _ => Err
+            | CRNotKeyed => Unspec
+            | CRMany => Err
             end
         | _ => apply fv av
         end
